@@ -287,16 +287,29 @@ def run_race(which, seed, rounds, log):
     if rc != 0:
         return {"built": False, "note": "race-enabled build unavailable: " + out[-300:]}
     d = os.path.join(WORK, "race-%s-%d" % (which, os.getpid()))
-    shutil.rmtree(d, ignore_errors=True); os.makedirs(d)
-    rc, out = sh([os.path.join(WORK, "harness-race"), "-mode", "race", "-prop", which, "-seed", str(seed), "-n", str(rounds), "-out", d],
-                 env=dict(GOENV, GORACE="halt_on_error=0 exitcode=66"), timeout=1800)
-    info = {"built": True, "rc": rc, "data_race": "DATA RACE" in out, "output_tail": out[-2500:] if rc else ""}
-    try:
-        info.update(json.load(open(os.path.join(d, "race.json"))))
-    except Exception:
-        pass
-    shutil.rmtree(d, ignore_errors=True)
-    log.append(("race validation " + which, rc, "data_race=%s" % info["data_race"]))
+    def one(sd, n):
+        shutil.rmtree(d, ignore_errors=True); os.makedirs(d)
+        rc, out = sh([os.path.join(WORK, "harness-race"), "-mode", "race", "-prop", which, "-seed", str(sd), "-n", str(n), "-out", d],
+                     env=dict(GOENV, GORACE="halt_on_error=0 exitcode=66"), timeout=1800)
+        info = {"built": True, "rc": rc, "data_race": "DATA RACE" in out, "output_tail": out[-2500:] if rc else ""}
+        try:
+            info.update(json.load(open(os.path.join(d, "race.json"))))
+        except Exception:
+            pass
+        shutil.rmtree(d, ignore_errors=True)
+        return info
+    # cold starts first: a race on something initialised at first use (a hand-rolled once, a lazily built
+    # table) can only happen once per process, so several fresh processes each get one concurrent first use
+    cold = 4 if rounds <= 6 else 16
+    for i in range(cold):
+        info = one(seed + 1000 + i, 1)
+        if info.get("data_race") or info.get("mismatches") or info["rc"] not in (0,):
+            info["cold_start"] = i
+            log.append(("race validation %s (cold start %d)" % (which, i), info["rc"], "data_race=%s" % info["data_race"]))
+            return info
+    info = one(seed, rounds)
+    info["cold_starts"] = cold
+    log.append(("race validation " + which, info["rc"], "data_race=%s" % info["data_race"]))
     return info
 
 
